@@ -467,3 +467,29 @@ pub mod statelist {
     }
   }
 }
+
+
+/// Redirect this process' stderr to /dev/null until the guard is dropped (the crate's
+/// string entry points print parser diagnostics to stderr).
+pub struct StderrGuard(i32);
+pub fn silence_stderr() -> StderrGuard {
+  unsafe {
+    let saved = libc::dup(2);
+    let nul = libc::open(b"/dev/null\0".as_ptr() as *const libc::c_char, libc::O_WRONLY);
+    if saved >= 0 && nul >= 0 {
+      libc::dup2(nul, 2);
+      libc::close(nul);
+    }
+    StderrGuard(saved)
+  }
+}
+impl Drop for StderrGuard {
+  fn drop(&mut self) {
+    unsafe {
+      if self.0 >= 0 {
+        libc::dup2(self.0, 2);
+        libc::close(self.0);
+      }
+    }
+  }
+}
